@@ -155,6 +155,14 @@ func (r *yieldRewriter) rewriteStmts(
 	}
 
 	isLast := idx == len(stmts)-1
+	if br, _ := stmts[idx].(*ast.BranchStmt); br != nil && !isLast && (br.Tok == token.BREAK || br.Tok == token.CONTINUE) {
+		// the stmts after break / continue are unreachable and dropped, but they still count as uses of
+		// the variables they mention (declared and not used): keep them where they never run
+		if dead := X.Block(stmts[idx+1:]...); r.mustNoYield(dead) && !containsDefer(dead) {
+			children.push(&ast.IfStmt{Cond: X.Ident("false"), Body: dead}, kindTrival)
+			children = r.combineIfNecessary(children)
+		}
+	}
 	following := r.rewriteStmt(stmts[idx], isLast, children)
 	if following == nil {
 		return
